@@ -89,6 +89,13 @@ func (h *MultiHandler) Listen() <-chan *Message {
 
 // CanAccept returns true if the message is designated for this protocol protocol execution.
 func (h *MultiHandler) CanAccept(msg *Message) bool {
+	h.mtx.Lock()
+	defer h.mtx.Unlock()
+	return h.canAccept(msg)
+}
+
+// canAccept is CanAccept for callers that already hold the lock.
+func (h *MultiHandler) canAccept(msg *Message) bool {
 	r := h.currentRound
 	if msg == nil {
 		return false
@@ -136,7 +143,7 @@ func (h *MultiHandler) Accept(msg *Message) {
 	defer h.mtx.Unlock()
 
 	// exit early if the message is bad, or if we are already done
-	if !h.CanAccept(msg) || h.err != nil || h.result != nil || h.duplicate(msg) {
+	if !h.canAccept(msg) || h.err != nil || h.result != nil || h.duplicate(msg) {
 		return
 	}
 
@@ -360,7 +367,10 @@ func (h *MultiHandler) abort(err error, culprits ...party.ID) {
 
 // Stop cancels the current execution of the protocol, and alerts the other users.
 func (h *MultiHandler) Stop() {
-	if h.err != nil || h.result != nil {
+	h.mtx.Lock()
+	defer h.mtx.Unlock()
+	// nothing to do once the protocol has ended: the channel is already closed.
+	if h.err == nil && h.result == nil {
 		h.abort(errors.New("aborted by user"), h.currentRound.SelfID())
 	}
 }
